@@ -28,7 +28,8 @@ RULE = ('(a) collector-produced snapshots of generated frames (friendly + hostil
 ASSUMPTIONS = ['integers in attributes stay within int64', 'code points that UTF-8 cannot encode may be replaced by a '
                'short placeholder; every other character must arrive unchanged']
 REQUIRE = {'messages_compared': 800, 'fields_compared': 20000, 'collector_snapshots': 300, 'surrogate_cases': 40,
-           'sequence_attribute_cases': 40, 'auth_sessions': 30, 'requests_with_metadata_checked': 100}
+           'sequence_attribute_cases': 40, 'auth_sessions': 30, 'requests_with_metadata_checked': 100,
+           'hostile_provider_sessions': 5}
 SURR = re.compile('[\ud800-\udfff]')
 
 
@@ -361,10 +362,39 @@ def _custom_provider_class():
     return VfProvider
 
 
+PROVIDER_PLAN = {'fail_first': 0, 'gate': None, 'entered': None}
+
+
+def _flaky_provider_class():
+    from deep.api.auth import AuthProvider
+
+    class VfFlakyProvider(AuthProvider):
+        """Fails its first N calls (a token endpoint that is briefly down), may be slow on a call."""
+        calls = 0
+
+        def provide(self):
+            cls = type(self)
+            cls.calls += 1
+            n = cls.calls
+            if PROVIDER_PLAN['entered'] is not None:
+                PROVIDER_PLAN['entered'].set()
+            if PROVIDER_PLAN['gate'] is not None and n == 1:
+                PROVIDER_PLAN['gate'].wait(3)
+            if n <= PROVIDER_PLAN['fail_first']:
+                raise RuntimeError('token endpoint unavailable (call %d)' % n)
+            return [('x-api-key', 'key-%s' % self._config.MY_TENANT), ('x-tenant', str(self._config.MY_TENANT))]
+
+    return VfFlakyProvider
+
+
 def __getattr__(name):
     if name == 'VfProvider':
         cls = _custom_provider_class()
         globals()['VfProvider'] = cls
+        return cls
+    if name == 'VfFlakyProvider':
+        cls = _flaky_provider_class()
+        globals()['VfFlakyProvider'] = cls
         return cls
     raise AttributeError(name)
 
@@ -390,7 +420,9 @@ def case_auth(seed, out, spec):
     from deep.task import TaskHandler
     from deepproto.proto.poll.v1.poll_pb2 import PollResponse, ResponseType
     r = Rng('c08a', seed)
-    mode = r.pick(['none', 'basic', 'basic', 'basic_nopass', 'custom', 'empty'])
+    mode = r.pick(['none', 'basic', 'basic', 'basic_nopass', 'custom', 'empty', 'flaky', 'flaky', 'slow'])
+    if mode in ('flaky', 'slow'):
+        return case_auth_hostile(seed, out, spec, r, mode)
     cfg = {'SERVICE_URL': '127.0.0.1:1', 'SERVICE_SECURE': 'False'}
     if mode in ('basic', 'basic_nopass'):
         cfg['SERVICE_AUTH_PROVIDER'] = 'deep.api.auth.BasicAuthProvider'
@@ -451,6 +483,66 @@ def case_auth(seed, out, spec):
     out.count('auth_sessions')
     out.case({'mode': mode, 'cfg': witness['config'], 'order': order}, nontrivial=True,
              sample={'mode': mode, 'requests': order, 'metadata_expected': want})
+
+
+def case_auth_hostile(seed, out, spec, r, mode):
+    """The provider fails its first calls, or two threads need the metadata while the first provide() is running."""
+    import sys
+    from deep.api.resource import Resource
+    from deep.config import ConfigService
+    from deep.grpc import GRPCService
+    from deep.poll import LongPoll
+    from deepproto.proto.poll.v1.poll_pb2 import PollResponse, ResponseType
+    mod = sys.modules[__name__]
+    mod.__dict__.pop('VfFlakyProvider', None)   # fresh class (call counter) per case
+    tenant = r.randrange(1000)
+    cfg = {'SERVICE_URL': '127.0.0.1:1', 'SERVICE_SECURE': 'False', 'MY_TENANT': tenant,
+           'SERVICE_AUTH_PROVIDER': 'vf.props.c08.VfFlakyProvider'}
+    config = ConfigService(cfg)
+    config.resource = Resource.create()
+    grpc = GRPCService(config)
+    grpc.channel = fakegrpc.FakeChannel()
+    grpc.channel.on_call = lambda method, request: PollResponse(ts_nanos=1, current_hash='',
+                                                                response_type=ResponseType.NO_CHANGE)
+    poll = LongPoll(config, grpc)
+    want = [('x-api-key', 'key-%s' % tenant), ('x-tenant', str(tenant))]
+    replay = replay_spec(spec, seed)
+    raised = 0
+    if mode == 'flaky':
+        PROVIDER_PLAN.update(fail_first=r.randrange(1, 3), gate=None, entered=None)
+        for i in range(PROVIDER_PLAN['fail_first'] + 3):
+            try:
+                poll.poll()
+            except RuntimeError:
+                raised += 1      # the request was not sent: nothing left the process
+    else:
+        gate, entered = threading.Event(), threading.Event()
+        PROVIDER_PLAN.update(fail_first=0, gate=gate, entered=entered)
+        t1 = threading.Thread(target=poll.poll)
+        t1.start()
+        entered.wait(5)          # thread 1 is inside provide()
+        t2 = threading.Thread(target=poll.poll)
+        t2.start()
+        t2.join(0.3)             # thread 2 either waits for the provider too, or has already sent
+        gate.set()
+        t1.join(10)
+        t2.join(10)
+        poll.poll()
+    PROVIDER_PLAN.update(fail_first=0, gate=None, entered=None)
+    witness = {'mode': mode, 'provider_failures': raised, 'requests_sent': len(grpc.channel.calls)}
+    for i, (method, request, md, tid, t) in enumerate(grpc.channel.calls):
+        got = [tuple(x) for x in (md or [])]
+        if sorted(got) != sorted(want):
+            out.violation('auth:metadata-missing' if not got else 'auth:metadata-wrong',
+                          '%s provider: request %d left without the provider\'s metadata: %r' % (mode, i, got),
+                          witness, replay)
+            break
+        out.count('requests_with_metadata_checked')
+    if not grpc.channel.calls:
+        out.violation('auth:request-missing', '%s provider: no request was sent at all' % mode, witness, replay)
+    out.count('auth_sessions')
+    out.count('hostile_provider_sessions')
+    out.case({'mode': mode, 'tenant': tenant, 'fail': raised}, nontrivial=True, sample=witness)
 
 
 def _close(th):
